@@ -113,3 +113,19 @@ Proof.
   split; [vm_compute; reflexivity|]. split; [vm_compute; reflexivity|].
   intro n. destruct (pinned_spins_for_ever n _ _ Sp) as (A & _ & C). split; [exact C|apply A].
 Qed.
+
+(* the same with the two facts that make it the negation of ckif_spin_released_when_nothing_visible on the pinned machine:
+   the premises of that theorem hold in f46_state_pinned (spinning; current scope 2 not effectively cancelled), today's
+   step returns RRet 0 there, the pinned step suspends again *)
+Example ckif_pinned_run_witness_full :
+  snd (run_ops step_pinned init f46_ops) = snd (run_ops step init f46_ops) /\
+  spinning f46_state_pinned 1 /\ k_cur (tasks f46_state_pinned 1) = Some 2 /\
+  eff_cancelled f46_state_pinned 2 = false /\
+  s_chandle (scopes f46_state_pinned 1) = false /\ timers f46_state_pinned = [] /\
+  snd (step f46_state_pinned (ARun (HStep 1))) = RRet 0 /\
+  forall n, snd (step_pinned (pinned_rounds n f46_state_pinned 1) (ARun (HStep 1))) = RBlocked /\
+            ready (pinned_rounds n f46_state_pinned 1) = [HStep 1].
+Proof.
+  destruct ckif_pinned_run_witness as (A & B & C & D & E & F).
+  refine (conj A (conj B (conj _ (conj C (conj D (conj E (conj _ F))))))); vm_compute; reflexivity.
+Qed.
